@@ -410,11 +410,12 @@ def real_op(op, rec, pre, i, ctx):
 def build(pipe, rec, pre, ctx):
     """[tap(pre+[0]), op1, tap(pre+[1]), ...] (taps omitted when rec is None)"""
     ops = []
-    if rec is not None:
+    ends_only = ctx.get('taps') == 'ends'     # observe the two ends of the top-level pipeline only
+    if rec is not None and (not ends_only or len(pre) == 0):
         ops.append(tap(rec, list(pre) + [0]))
     for i, op in enumerate(pipe, start=1):
         ops.append(real_op(op, rec, pre, i, ctx))
-        if rec is not None:
+        if rec is not None and (not ends_only or (len(pre) == 0 and i == len(pipe))):
             ops.append(tap(rec, list(pre) + [i]))
     return ops
 
@@ -439,7 +440,7 @@ def _subscribe_routers(rec, ctx):
         errors.subscribe(on_next=dl_next, on_completed=dl_done, on_error=lambda e: None)
 
 
-def run_mux(pipe, events, timescale=None):
+def run_mux(pipe, events, timescale=None, taps='all'):
     """Push mux events directly on a MuxObservable (as the repository's own tests do).
     events: [{'t':'c'|'n'|'d', 'k':[idx], 'v':value}] ; the source completes at the end
     unless the last event is {'t':'open'}."""
@@ -447,7 +448,7 @@ def run_mux(pipe, events, timescale=None):
     import rxsci as rs
     from rx.subject import Subject
     rec = Recorder()
-    ctx = {'routers': [], 'timescale': timescale}
+    ctx = {'routers': [], 'timescale': timescale, 'taps': taps}
     ops = build(pipe, rec, [], ctx)
     src = Subject()
     store = rs.state.StoreManager(store_factory=rs.state.MemoryStore)
@@ -484,13 +485,13 @@ def run_mux(pipe, events, timescale=None):
     return _finish(rec, pipe, 'mux', {'src': events})
 
 
-def run_src(pipe, items, complete=True, timescale=None, use_multiplex=False):
+def run_src(pipe, items, complete=True, timescale=None, taps='all'):
     """A plain source through with_memory_store (root key (0,))."""
     import rx
     import rxsci as rs
     from rx.subject import Subject
     rec = Recorder()
-    ctx = {'routers': [], 'timescale': timescale}
+    ctx = {'routers': [], 'timescale': timescale, 'taps': taps}
     ops = build(pipe, rec, [], ctx)
     src = Subject()
     obs = src.pipe(rs.state.with_memory_store(pipeline=rx.pipe(*ops)))
